@@ -283,3 +283,38 @@ Definition c06_check (c : cfg) (probes : list Z) (ly0 : layers) (g : Gds.GdsData
     0 = well-formed and judged, 1 = silent, 2 = malformed *)
 Definition c06_class (g : Gds.GdsData.library) : Z :=
   if S.malformedb g then 2 else if S.silentb g then 1 else 0.
+
+(** * Short constructors for the case files (fewer nodes to elaborate; nothing else) *)
+Module W.
+  Module G := Gds.GdsData.
+  Fixpoint gpts (l : list Z) : list G.point :=
+    match l with x :: y :: r => G.mkPt x y :: gpts r | _ => [] end.
+  Definition zdt : G.datetimes := G.mkDTs (G.mkDT 0 0 0 0 0 0) (G.mkDT 0 0 0 0 0 0).
+  Definition gB (l d : Z) (xy : list Z) : G.element := G.EBoundary (G.mkBoundary l d (gpts xy) None None []).
+  Definition gX (l d : Z) (xy : list Z) : G.element := G.EBox (G.mkBox l d (gpts xy) None None []).
+  Definition gP (l d : Z) (xy : list Z) (w pt : option Z) : G.element :=
+    G.EPath (G.mkPath l d (gpts xy) w pt None None None None []).
+  Definition gT (s : G.bytes) (l tt x y : Z) : G.element :=
+    G.EText (G.mkText s l tt (G.mkPt x y) None None None None None None []).
+  Definition gN (l nt : Z) (xy : list Z) : G.element := G.ENode (G.mkNode l nt (gpts xy) None None []).
+  Definition gS (nm : G.bytes) (x y : Z) (st : option G.strans) : G.element :=
+    G.ESref (G.mkSref nm (G.mkPt x y) st None None []).
+  Definition gA (nm : G.bytes) (xy : list Z) (c r : Z) (st : option G.strans) : G.element :=
+    G.EAref (G.mkAref nm (gpts xy) c r st None None []).
+  Definition gSt (nm : G.bytes) (es : list G.element) : G.gstruct := G.mkStruct nm zdt es.
+  Definition gL (nm : G.bytes) (u0 u1 : Z) (structs : list G.gstruct) : G.library := G.mkLib nm 3 zdt (u0, u1) structs.
+  Definition tr (r am aa : bool) (mag angle : option Z) : option G.strans := Some (G.mkStrans r am aa mag angle).
+
+  Fixpoint rpts (l : list Z) : list point :=
+    match l with x :: y :: r => mkpt x y :: rpts r | _ => [] end.
+  Definition rR (a b c d : Z) : shape := Rect (mkpt a b) (mkpt c d).
+  Definition rG (l : list Z) : shape := Polygon (rpts l).
+  Definition rP (w : Z) (l : list Z) : shape := Path (rpts l) w.
+  Definition rE (net : option string) (ly pn : Z) (s : shape) : element := mkelem net (Z.to_nat ly) (Other pn) s.
+  Definition rEp (net : option string) (ly : Z) (p : purpose) (s : shape) : element := mkelem net (Z.to_nat ly) p s.
+  Definition rI (nm : string) (cell x y : Z) (r : bool) (a : option Z) : instance :=
+    mkinst nm (Z.to_nat cell) (mkpt x y) r a.
+  Definition rT (s : string) (x y : Z) : textelem := mktext s (mkpt x y).
+  Definition rLat (cname : string) (cell x0 y0 cdx cdy rdx rdy cols rows : Z) (refl : bool) (angle : option Z) : iseg :=
+    ILattice cname (Z.to_nat cell) x0 y0 cdx cdy rdx rdy cols rows refl angle.
+End W.
